@@ -103,6 +103,20 @@ Theorem c10_auto_idle : forall n ignore c,
                 forall x, x < n -> nth x L None = Some k2 -> r1 < x).
 Proof. exact auto_labels_spec. Qed.
 
+(* the same on instructions: labels = connected components of "share a non-ignored instruction" (barriers included
+   unless ignored), None iff NO instruction at all (ignored ones such as pre-placed placeholders included) touches the qubit *)
+Theorem c10_auto_components : forall n ignore c,
+  in_range n c ->
+  let L := auto_labels n ignore false c in
+  length L = n /\
+  (forall q, q < n -> (nth q L None = None <-> untouched c q)) /\
+  (forall a b, a < n -> b < n -> nth a L None <> None ->
+     (nth a L None = nth b L None <-> connected ignore c a b)) /\
+  (forall q k, q < n -> nth q L None = Some k -> forall j, j <= k -> exists q', q' < n /\ nth q' L None = Some j) /\
+  (forall q1 q2 k1 k2, q1 < n -> q2 < n -> nth q1 L None = Some k1 -> nth q2 L None = Some k2 -> k1 < k2 ->
+     exists r1, r1 < n /\ nth r1 L None = Some k1 /\ r1 <= q1 /\ forall x, x < n -> nth x L None = Some k2 -> r1 < x).
+Proof. exact auto_components. Qed.
+
 Theorem c10_keep_idle_wires : forall n ignore c q, in_range n c -> q < n -> nth q (auto_labels n ignore true c) None <> None.
 Proof. exact keep_idle_spec. Qed.
 
@@ -203,21 +217,20 @@ Theorem c10_cutting_total : forall basis_of ls c,
   (forall i, In i c -> ~ uncuttable basis_of ls i) -> exists qc, pcq_loop basis_of ls c = Ok qc.
 Proof. exact pcq_loop_total. Qed.
 
-(* PARTIAL: full statement = "labels/observables/clbit validations pass, no gate is uncuttable, every instruction of c
-   acts on >= 1 qubits all labelled non-None (pre-placed placeholders on exactly two), observables identity on the
-   None qubits  ==>  partition_problem = Ok".  Proved: the same with the validity of the labelling stated for the
-   CUT circuit (after numbering and decompose) instead of being derived from that condition on c. *)
-Theorem c10_problem_total_partial : forall basis_of relabel dx n c labels obs,
+(* full totality of partition_problem: a request that passes the four validations, whose instructions act on >= 1
+   qubits all labelled non-None without clbits (pre-placed placeholders on exactly two qubits), with no uncuttable gate
+   and observables that are the identity on the None-labelled qubits, is ANSWERED — for every decompose oracle dx
+   satisfying its contract.  (Was c10_problem_total_partial: the validity of the labelling of the cut circuit is now
+   derived from the condition on the input, and `length ls = n` from labels_ok / the automatic labelling.) *)
+Theorem c10_problem_total : forall basis_of relabel dx, dx_contract dx ->
+  forall n c labels obs,
   labels_ok n labels -> obs_sizes_ok n obs -> obs_phases_ok obs ->
   let ls := labels_used n c labels in
-  length ls = n ->
+  input_ok ls c ->
   (forall i, In i c -> ~ uncuttable basis_of ls i) ->
-  (forall qc, pcq_loop basis_of ls c = Ok qc ->
-     let cut := dx (fst (number_qpd relabel qc 0)) in
-     no_empty_instr cut /\ valid_labelling ls cut /\ clbits_ok [] cut) ->
   (forall ps p q, obs = Some ps -> In p ps -> q < n -> nth q ls None = None -> nth q (plets p) 0 = 0) ->
   exists r, partition_problem basis_of relabel dx n 0 0 c labels obs = Ok r.
-Proof. exact problem_total_partial. Qed.
+Proof. exact problem_total. Qed.
 
 (* ------------------------------------------------------------------------------------------------ *)
 (* c10_refusals *)
@@ -331,6 +344,37 @@ Example c10_ex_cuts :
       Some [(4, [mkP 0 [3; 1]]); (6, [mkP 0 [2]])]).
 Proof. reflexivity. Qed.
 
+(* automatic labels of partition_problem: qubit 3 is touched only by a pre-placed (ignored) placeholder: it is NOT idle
+   and forms its own component; qubit 4 is touched by nothing: None *)
+Definition ex4 : circ := [G 0 [0]; G 1 [0; 1]; mkI (Qpd2 3 None None) [1; 3] []; B [2]].
+Example c10_ex_auto_ignored : in_range 5 ex4 /\ auto_labels 5 is_qpd2 false ex4 = [Some 0; Some 0; Some 1; Some 2; None].
+Proof.
+  split; [|reflexivity]. intros i q Hi Hq. simpl in Hi.
+  destruct Hi as [<-|[<-|[<-|[<-|[]]]]]; simpl in Hq; lia.
+Qed.
+
+(* hypotheses of c10_problem_total on ex3 (labels 4 4 6, observable Z X Y) *)
+Example c10_ex_total_problem_hyps :
+  let ls := labels_used 3 ex3 (Some [Some 4; Some 4; Some 6]) in
+  labels_ok 3 (Some [Some 4; Some 4; Some 6]) /\ input_ok ls ex3 /\ (forall i, In i ex3 -> ~ uncuttable bo ls i).
+Proof.
+  cbv zeta. split; [reflexivity|]. split.
+  - intros i Hi. simpl in Hi. destruct Hi as [<-|[<-|[<-|[<-|[<-|[]]]]]]; simpl;
+      (split; [discriminate|]); (split; [reflexivity|]); (split; [|try discriminate; auto]);
+      intros q Hq; simpl in Hq; repeat (destruct Hq as [<-|Hq]; [discriminate|]); destruct Hq.
+  - intros i Hi [IB [L1 [SP W]]]. simpl in Hi.
+    destruct Hi as [<-|[<-|[<-|[<-|[<-|[]]]]]]; simpl in *; try lia; try discriminate;
+      destruct W as [W|[W1 W2]]; try lia; try discriminate.
+Qed.
+
+(* the hypothesis no_uuid of c10_separate / c10_recompose is NECESSARY: one-qubit barriers that already carry a
+   reserved "_uuid=" label are merged although they were separate barriers in the input *)
+Example c10_ex_no_uuid_needed :
+  let c := [mkI (Barrier (Some 5)) [0] []; mkI (Barrier (Some 5)) [1] []] in
+  separate_circuit 2 [] c (Some [Some 0; Some 0]) = Ok ([(0, 2, [B [0; 1]])], [Some (0, 0); Some (0, 1)]) /\
+  flat_map (restrict_instr [Some 0; Some 0] 0) c = c.
+Proof. split; reflexivity. Qed.
+
 (* F4 witness class on the repaired model: IZZ is answered without a None key, ZZZ is refused *)
 Example c10_ex_idle_obs_ok :
   partition_problem bo rl expand_qpd2 3 0 0 ex2 None (Some [mkP 0 [3; 3; 0]]) =
@@ -383,7 +427,8 @@ Print Assumptions c10_subobs_tensor.
 Print Assumptions c10_problem_subobs.
 Print Assumptions c10_separate_total.
 Print Assumptions c10_cutting_total.
-Print Assumptions c10_problem_total_partial.
+Print Assumptions c10_problem_total.
+Print Assumptions c10_auto_components.
 Print Assumptions c10_separate_refuses.
 Print Assumptions c10_problem_refuses.
 Print Assumptions c10_idle_observable.
